@@ -563,7 +563,13 @@ impl Engine for ProtSim {
         ops.push(POp::Release { to: 1 });
         PCase { seed, dcid_len, scid_len, ops }
     }
+    fn fresh_thread(&self) -> bool {
+        // thread-local state of the code under test (rand's generator, hash-map keys) starts from the run seed
+        true
+    }
     fn execute(&self, case: &PCase) -> Outcome {
+        // process-wide first-use initialisation (entropy probes of ring / getrandom) happens in a throw-away run
+        crate::process_init_pub();
         run(case)
     }
     fn shrink(&self, case: &PCase) -> Vec<PCase> {
